@@ -3,6 +3,7 @@ pub mod flw;
 pub mod fmt;
 pub mod names;
 pub mod flwgen;
+pub mod robust;
 pub mod spec;
 pub mod stdout;
 
@@ -22,6 +23,7 @@ pub fn generate(prop: &str, tier: &str, seed: u64) -> Vec<Vec<String>> {
         "C20" => fmt::gen_c20(tier, seed),
         "C14n" => names::gen_names_cases("C14", tier, seed),
         "C16n" => names::gen_names_cases("C16", tier, seed),
+        "C10" => robust::gen_c10(tier, seed),
         "C04" => { let mut v = flwgen::gen_c04(tier, seed); v.extend(stdout::gen_std("C04", tier, seed)); v }
         "C06" => flwgen::gen_c06(tier, seed),
         "C07" => flwgen::gen_c07(tier, seed),
@@ -53,7 +55,7 @@ pub fn execute(ctx: &mut Ctx, lines: &[String]) -> Vec<(Vec<String>, Vec<String>
     ctx.report.evaluations += 1;
     match hdr[1] {
         "spec" => vec![(lines.to_vec(), spec::execute(ctx, lines))],
-        "flw" => vec![(lines.to_vec(), flw::execute(ctx, lines))],
+        "flw" | "robust" => vec![(lines.to_vec(), flw::execute(ctx, lines))],
         "conc" => conc::execute(ctx, lines),
         "fmt" => vec![(lines.to_vec(), fmt::execute(ctx, lines))],
         "names" => vec![(lines.to_vec(), names::execute(ctx, lines))],
@@ -66,6 +68,7 @@ pub fn child_main(args: &[String]) {
     match args.first().map(String::as_str) {
         Some("dup") => spec::child_dup(&args[1..]),
         Some("std") => stdout::child_std(&args[1..]),
+        Some("recurse") => robust::child_recurse(&args[1..]),
         _ => {
             eprintln!("unknown child mode");
             std::process::exit(2);
